@@ -65,7 +65,7 @@ def rep_dump(ev):
             "lead_length": u(ev["lead_length"]), "header_length": u(ev["header_length"]),
             "data_length": u(ev.get("data_length", "NOINDEX")), "length": u(ev.get("length", "NOINDEX")),
             "header_digest": ev["header_digest"], "data_digest": ev["data_digest"],
-            "chunk_count": u(ev["chunk_count"]), "detached": str(ev["detached"]),
+            "chunk_count": u(ev["chunk_count"]), "detached": str(ev["detached"]), "bynum": ev.get("bynum", []),
             "chunks": [{"num": s(c["num"]), "digest": c["digest"], "udigest": c["udigest"], "clen": s(c["clen"]), "ulen": s(c["ulen"]), "start": s(c["start"])}
                        for c in ev["chunks"]]}
 
